@@ -37,7 +37,7 @@ const keyIntoDesc = "C18-rename-into-descendant"
 
 func TestMain(m *testing.M) {
 	fkit.QuietGlog(vlib.TempDir())
-	vlib.Rule("C18: rapid op sequences (4-24 ops: create file/dir with missing parents, O_EXCL create, update, delete recursive or not with/without data, AtomicRenameEntry to new names, onto existing files/dirs, across directories, into own descendants) over paths {a,ab,b,c}^<=3 (a is a proper string prefix of its sibling ab) under a per-case root on leveldb, leveldb2, leveldb3 (plain and under /buckets/x) and an in-memory store, plus exhaustive sequences over the 5 paths /a /ab /a/a /a/ab /ab/a. Non-trivial = history containing a successful rename of an existing entry or a recursive delete of a non-empty directory. Distinct = distinct op sequence incl. store kind.")
+	vlib.Rule("C18: rapid op sequences (4-24 ops: create file/dir with missing parents, O_EXCL create, update, delete recursive or not with/without data, AtomicRenameEntry to new names, onto existing files/dirs, across directories, into own descendants) over paths {a,ab,b,c}^<=3 (a is a proper string prefix of its sibling ab) under a per-case root on leveldb, leveldb2, leveldb3 (plain and under /buckets/x) and an in-memory store, plus exhaustive sequences over the 5 paths /a /ab /a/a /a/ab /ab/a. A few aging histories create files with ttl 1 s / 3600 s / none in not yet existing directory paths, add, move and delete entries, sleep 2.1 s once and re-check that everything except ttl-1 files is still there with all ancestors. Non-trivial = history containing a successful rename of an existing entry or a recursive delete of a non-empty directory (aging histories: always, each starts with a ttl-1 file below auto-created directories). Distinct = distinct op sequence incl. store kind.")
 	vlib.Assume("Directories are created the way every real client does it (filer_pb.Mkdir, mount, S3): IsDirectory=true together with the os.ModeDir bit in Attributes.FileMode.")
 	vlib.Assume("Merge semantics of a rename onto an existing directory are taken from the implementation (children are moved one by one, same-named files are overwritten); where a rename must fail half-way (type conflict below the top level) or the target is an ancestor of the source, only the weaker invariant 'well-formed tree, no file lost or duplicated, bystanders untouched' is required.")
 	vlib.Assume("No master / volume servers: chunk deletion requests resolve no location and contact nobody; the metadata log buffer is replaced by one without flush function.")
@@ -223,6 +223,7 @@ type op struct {
 	Data  bool
 	Ign   bool
 	Chunk bool
+	TTL   int32 // mkfile only (aging histories): Attributes.TtlSec, with Crtime = now as real clients set it
 	Tok   string
 }
 
@@ -235,6 +236,9 @@ func (o op) String() string {
 		}
 		if o.Chunk {
 			s += "+chunk"
+		}
+		if o.TTL > 0 {
+			s += "+ttl=" + strconv.Itoa(int(o.TTL))
 		}
 		return s + " " + o.P
 	case "update":
@@ -436,7 +440,13 @@ func (e *env) apply(root string, o op) string {
 	dir, name := util.FullPath(full).DirAndName()
 	switch o.Kind {
 	case "mkfile", "mkdir":
-		resp, err := e.fs.CreateEntry(ctx, &filer_pb.CreateEntryRequest{Directory: dir, Entry: pbEntry(name, o.Kind == "mkdir", o.Tok, o.Chunk), OExcl: o.Excl})
+		pe := pbEntry(name, o.Kind == "mkdir", o.Tok, o.Chunk)
+		if o.TTL > 0 {
+			// input, not oracle: a client creating a file with a ttl stamps it with the current time
+			now := time.Now().Unix()
+			pe.Attributes.TtlSec, pe.Attributes.Crtime, pe.Attributes.Mtime = o.TTL, now, now
+		}
+		resp, err := e.fs.CreateEntry(ctx, &filer_pb.CreateEntryRequest{Directory: dir, Entry: pe, OExcl: o.Excl})
 		if err != nil {
 			return err.Error()
 		}
@@ -987,6 +997,241 @@ func TestPropNamespace(t *testing.T) {
 			label += "/bucket"
 		}
 		r.record(label)
+	})
+}
+
+// ---------------------------------------------------------------- aging: ttl entries must not take directories with them
+
+// TTL is a property of files: FindEntry and listings drop any entry whose ttl has
+// run out. Directories that were created explicitly without ttl, or implicitly
+// as missing parents, must stay, and so must everything without ttl stored below
+// them. The histories here create files with ttl 1 s (and 3600 s, and none) in
+// not yet existing directory paths, put further entries next to them, move and
+// delete subtrees; then the test sleeps once (aging only, nothing is asserted
+// about time) and checks the tree invariant again: every entry of the reference
+// tree except ttl-1 files is still there, reachable, with all ancestors; a ttl-1
+// file may be absent from the moment it is created (it is never referred to again
+// by the history, so the rest of the reference tree stays exact).
+
+type agingTree struct {
+	r     *runner
+	ttl   map[string]int32 // ttl of the files created with one
+	label string
+}
+
+func (a *agingTree) mayBeAbsent(k string) bool { return a.ttl[k] == 1 && !a.r.m[k].Dir }
+
+func (a *agingTree) compare(actual model) string {
+	var d []string
+	for k, w := range a.r.m {
+		if k == "" {
+			continue
+		}
+		g, ok := actual[k]
+		if !ok {
+			if !a.mayBeAbsent(k) {
+				d = append(d, "missing "+k)
+			}
+		} else if g != w {
+			d = append(d, fmt.Sprintf("%s: want %+v got %+v", k, w, g))
+		}
+	}
+	for k := range actual {
+		if _, ok := a.r.m[k]; !ok {
+			d = append(d, fmt.Sprintf("unexpected %s %+v", k, actual[k]))
+		}
+	}
+	sort.Strings(d)
+	return strings.Join(d, "; ")
+}
+
+// freshPath draws a path that does not exist yet and whose nearest existing ancestor is a directory ("" if the draw
+// does not give one).
+func (a *agingTree) freshPath(t *rapid.T, label string) string {
+	var dirs []string
+	for k, n := range a.r.m {
+		if n.Dir {
+			dirs = append(dirs, k)
+		}
+	}
+	sort.Strings(dirs)
+	p := dirs[rapid.IntRange(0, len(dirs)-1).Draw(t, label+"-base")]
+	if rapid.Bool().Draw(t, label+"-fromroot") {
+		p = ""
+	}
+	n := rapid.IntRange(1, 3).Draw(t, label+"-depth")
+	for i := 0; i < n; i++ {
+		p += "/" + rapid.SampledFrom(names).Draw(t, label+"-seg")
+	}
+	if _, ok := a.r.m[p]; ok {
+		return ""
+	}
+	if !a.r.m[a.r.m.nearestExisting(parentOf(p))].Dir {
+		return ""
+	}
+	return p
+}
+
+func (a *agingTree) do(o op) {
+	r := a.r
+	ex := expectOp(r.m, o)
+	if ex.err != mustOK || ex.weak || ex.intoDesc {
+		r.fail("aging generator produced %s with expectation %s", o, ex.class)
+	}
+	msg := r.e.apply(r.root, o)
+	r.hist = append(r.hist, o.String())
+	r.cls[ex.class] = true
+	if msg != "" {
+		r.fail("%s failed unexpectedly: %s\n  history: %s\n  tree before: %s", o, msg, r.history(), r.m)
+	}
+	switch o.Kind {
+	case "mkfile":
+		if o.TTL > 0 {
+			a.ttl[o.P] = o.TTL
+		}
+	case "delete":
+		for k := range a.ttl {
+			if k == o.P || strings.HasPrefix(k, o.P+"/") {
+				delete(a.ttl, k)
+			}
+		}
+	case "rename":
+		for k, v := range a.ttl {
+			if k == o.P || strings.HasPrefix(k, o.P+"/") {
+				delete(a.ttl, k)
+				a.ttl[o.Q+k[len(o.P):]] = v
+			}
+		}
+	}
+	r.m = ex.after
+	actual, err := r.e.snapshot(r.root)
+	if err != nil {
+		r.fail("listing after %s: %v\n  history: %s", o, err, r.history())
+	}
+	if d := a.compare(actual); d != "" {
+		r.fail("after %s the namespace differs from the reference tree: %s\n  history: %s\n  expected: %s\n  actual: %s", o, d, r.history(), r.m, actual)
+	}
+}
+
+// build runs one generated history.
+func (a *agingTree) build(t *rapid.T) {
+	nops := rapid.IntRange(3, 9).Draw(t, "nops")
+	for i := 0; i < nops; i++ {
+		o := op{Tok: "t" + strconv.Itoa(i)}
+		k := rapid.IntRange(0, 9).Draw(t, "op")
+		if i == 0 {
+			k = 0 // every history starts with a ttl-1 file in a directory path that does not exist yet
+		}
+		switch {
+		case k < 5:
+			o.Kind = "mkfile"
+			o.P = a.freshPath(t, "p")
+			o.TTL = rapid.SampledFrom([]int32{0, 0, 1, 1, 3600}).Draw(t, "ttl")
+			if i == 0 {
+				o.TTL = 1
+				o.P = "/" + rapid.SampledFrom(names).Draw(t, "d1") + "/" + rapid.SampledFrom(names).Draw(t, "d2") + "/" + rapid.SampledFrom(names).Draw(t, "f")
+			}
+		case k < 6:
+			o.Kind = "mkdir"
+			o.P = a.freshPath(t, "p")
+		case k < 9:
+			o.Kind = "rename"
+			var srcs []string
+			for p := range a.r.m {
+				if p != "" && !a.mayBeAbsent(p) {
+					srcs = append(srcs, p)
+				}
+			}
+			sort.Strings(srcs)
+			if len(srcs) == 0 {
+				continue
+			}
+			o.P = srcs[rapid.IntRange(0, len(srcs)-1).Draw(t, "src")]
+			o.Q = a.freshPath(t, "q")
+			if o.Q == o.P || strings.HasPrefix(o.Q, o.P+"/") {
+				continue
+			}
+		default:
+			o.Kind, o.Rec, o.Data = "delete", true, true
+			var ps []string
+			for p := range a.r.m {
+				if p != "" && !a.mayBeAbsent(p) && len(p) > 3 { // not the top-level directories: keep something to age
+					ps = append(ps, p)
+				}
+			}
+			sort.Strings(ps)
+			if len(ps) == 0 {
+				continue
+			}
+			o.P = ps[rapid.IntRange(0, len(ps)-1).Draw(t, "del")]
+		}
+		if o.P == "" || o.Kind == "rename" && o.Q == "" {
+			continue
+		}
+		a.do(o)
+	}
+}
+
+// afterAging checks the tree invariant once the ttl-1 files had time to expire.
+func (a *agingTree) afterAging() {
+	r := a.r
+	actual, err := r.e.snapshot(r.root)
+	if err != nil {
+		r.fail("listing after aging: %v\n  history: %s", err, r.history())
+	}
+	if d := a.compare(actual); d != "" {
+		r.fail("after the ttl-1 files had time to expire, entries without ttl are gone or unreachable: %s\n  history: %s\n  expected (ttl-1 files optional): %s\n  actual: %s", d, r.history(), r.m, actual)
+	}
+	for k, w := range r.m {
+		if k == "" || a.mayBeAbsent(k) {
+			continue
+		}
+		en, err := r.e.f.FindEntry(context.Background(), util.FullPath(r.root+k))
+		if err != nil || en == nil || nodeOf(en) != w {
+			r.fail("after aging %s (%+v) cannot be found: %v\n  history: %s", k, w, err, r.history())
+		}
+	}
+	if r.e.mem != nil {
+		stored := map[string]bool{}
+		for _, p := range r.e.mem.AllPaths(r.root + "/") {
+			stored[p] = true
+		}
+		for p := range stored {
+			if par := parentOf(p); par != r.root && !stored[par] {
+				r.fail("after aging %s is stored without its parent directory\n  history: %s", p, r.history())
+			}
+		}
+	}
+}
+
+func TestPropNamespaceAging(t *testing.T) {
+	vlib.Check(t, 8, 60, func(t *rapid.T) {
+		var trees []*agingTree
+		for _, v := range variants { // one history per store variant, then one sleep for all of them
+			label := v.kind
+			if v.bucket {
+				label += "/bucket"
+			}
+			a := &agingTree{r: newRunner(v.kind, v.bucket, t.Fatalf), ttl: map[string]int32{}, label: label}
+			a.build(t)
+			trees = append(trees, a)
+		}
+		time.Sleep(2100 * time.Millisecond) // aging only: lets every ttl-1 entry run out; nothing is asserted about time
+		var desc []string
+		cls := map[string]bool{}
+		for _, a := range trees {
+			a.afterAging()
+			desc = append(desc, a.r.history())
+			for k := range a.r.cls {
+				cls[k] = true
+			}
+		}
+		cl := []string{"aging"}
+		for k := range cls {
+			cl = append(cl, "aging-"+k)
+		}
+		sort.Strings(cl[1:])
+		vlib.Case(strings.Join(desc, " || "), true, cl...)
 	})
 }
 
